@@ -734,6 +734,9 @@ func genInsert(r *Rng, sc *ATSchema, taken map[string]bool, o ATGenOpts) *ATStmt
 				row[k] = genVal(r, c)
 				if sc.isPK(k) && row[k].K == 'i' {
 					row[k].I = int64(12 + r.Intn(40))
+					if sc.Auto {
+						row[k].I += 5000 // explicit keys far above whatever the counter hands out
+					}
 				}
 				if sc.isPK(k) && row[k].K == 'N' {
 					row[k] = ATVal{K: 'i', I: int64(12 + r.Intn(40))}
